@@ -12,6 +12,7 @@ mod c04;
 mod c06;
 mod c05;
 mod c12;
+mod c15;
 mod findings;
 
 use report::Report;
@@ -50,6 +51,9 @@ fn run_named(name: &str, tier: &str, seed: u64, standin: bool) -> String {
         (true, "identifier_between") => { c12::standin_identifier_between(&mut r, tier); true }
         (true, "list_reads") => { c12::standin_list_reads(&mut r); true }
         (false, "c12") => { c12::search(&mut r, tier, seed); true }
+        (true, "merkle_hash") => { c15::standin_merkle_hash(&mut r); true }
+        (true, "merkle_reads") => { c15::standin_merkle_reads(&mut r); true }
+        (false, "c15") => { c15::search(&mut r, tier, seed); true }
         _ => false,
     };
     if !known {
@@ -83,6 +87,9 @@ fn replay_file(path: &str) -> String {
         "c12" => { c12::search(&mut r, "thorough", cex["seed"].as_u64().unwrap_or(0)); true }
         "identifier_between" => { c12::standin_identifier_between(&mut r, "thorough"); true }
         "list_reads" => { c12::standin_list_reads(&mut r); true }
+        "c15" => { c15::search(&mut r, "thorough", cex["seed"].as_u64().unwrap_or(0)); true }
+        "merkle_hash" => { c15::standin_merkle_hash(&mut r); true }
+        "merkle_reads" => { c15::standin_merkle_reads(&mut r); true }
         _ => false,
     };
     if !known { return format!("{{\"error\": \"unknown search {}\"}}", search); }
